@@ -1,7 +1,7 @@
 #!/usr/bin/env python3
 """Run the registered checks against many seeded changes in parallel, without touching /repo.
 
-usage: lib/run_seeded_par.py [<name substring> ...] [--tier quick|thorough] [--only-missed] [--workers N]
+usage: lib/run_seeded_par.py [<name substring> ...] [--tier quick|thorough] [--only-missed] [--workers N] [--keep]
                              [--mutants]   (also / instead run the hand-made /verif/mutants/*.diff)
 
 Every worker owns a scratch directory /tmp/par/w<k>/ with
@@ -81,7 +81,7 @@ def run_one(w, patch, checks, tier):
 
 def main():
     args = sys.argv[1:]
-    tier, only_missed, pats, workers, mutants = "quick", False, [], 4, False
+    tier, only_missed, pats, workers, mutants, keep = "quick", False, [], 4, False, False
     i = 0
     while i < len(args):
         if args[i] == "--tier":
@@ -92,6 +92,8 @@ def main():
             only_missed = True
         elif args[i] == "--mutants":
             mutants = True
+        elif args[i] == "--keep":
+            keep = True  # leave /tmp/par in place (build output is reused by the next run); remove it when done
         else:
             pats.append(args[i])
         i += 1
@@ -140,7 +142,7 @@ def main():
         t.start()
     for t in ts:
         t.join()
-    for k in range(workers):
+    for k in range(0 if keep else workers):
         w = os.path.join(BASE, f"w{k}")
         if os.path.exists(os.path.join(w, "repo")):
             sh(f"git -C /repo worktree remove --force {w}/repo")
